@@ -137,6 +137,28 @@ def run(tier, seed):
                 R.fail(G_TOCH, "progression-strings-in-either-case-denote-the-diatonic-chords",
                        "to_chords(%r, %r) = %r, expected %r" % (prog, key, res, want), (prog, key))
 
+    # a progression that repeats a numeral: every bar of the answer is a list of its own (editing one bar must not change
+    # another, nor a later answer)
+    for key in ("C", "Eb", "f#"):
+        for prog in (["I", "V", "I"], ["ii7", "V7", "ii7", "V7"], ["bVII", "IV", "bVII"], ["I", "I"]):
+            R.case(G_TOCH, ("repeat", key, tuple(prog)))
+            ok, res = R.guard(G_TOCH, "progression-strings-in-either-case-denote-the-diatonic-chords", (prog, key),
+                              lambda: P.to_chords(list(prog), key))
+            if not ok or not isinstance(res, list):
+                continue
+            want = [H.denote_numeral(p, key) for p in prog]
+            if len(set(id(x) for x in res)) != len(res):
+                R.fail(G_TOCH, "progression-strings-in-either-case-denote-the-diatonic-chords",
+                       "to_chords(%r, %r) returns the SAME list object for two bars" % (prog, key), (prog, key))
+                continue
+            res[0].append("X")
+            again = R.guard(G_TOCH, "progression-strings-in-either-case-denote-the-diatonic-chords", (prog, key),
+                            lambda: P.to_chords(list(prog), key))[1]
+            if [list(x) for x in res[1:]] != want[1:] or again != want:
+                R.fail(G_TOCH, "progression-strings-in-either-case-denote-the-diatonic-chords",
+                       "after editing the first bar of to_chords(%r, %r): other bars %r, a second call %r, expected %r"
+                       % (prog, key, res[1:], again, want), (prog, key))
+
     # ------------------------------------------------------------------ 2. prefixes and suffixes
     def shifted_ok(got, base, acc):
         """every note of `got` is the note of `base` on the same letter, acc semitones away"""
